@@ -27,6 +27,8 @@ def flatten(v, out):
         out.append(v.t)
     elif isinstance(v, symex.Bool):
         out.append(1 if v.t else 0)
+    elif isinstance(v, symex.Flt):
+        out.append(v.t)
     elif isinstance(v, symex.Agg):
         for f in v.f:
             flatten(f, out)
@@ -50,6 +52,8 @@ def unflatten(shape, toks):
             return symex.Bool(toks.pop(0) != 0)
         if shape == "unit":
             return symex.UNIT
+        if shape == "f64":
+            return symex.Flt(toks.pop(0))
         return symex.Int(toks.pop(0), shape)
     k = shape[0]
     if k == "agg":
@@ -134,6 +138,11 @@ class SymIO:
     def bool(self, name):
         return self.s.bool(name)
 
+    def flt(self, name, lo, hi):
+        """an f64 input holding an integer value in lo..=hi (|.| <= 2^53)"""
+        v = self.s.int(name, "i64", lo, hi)
+        return symex.Flt(v.t)
+
     def cenum(self, name, enum_name, discrs):
         return self.s.cenum(name, enum_name, discrs)
 
@@ -145,6 +154,12 @@ class SymIO:
 
     def call(self, target, args, native=None):
         return self.s.call(target, args)
+
+    def spy(self, target):
+        """record (args, return value, path condition) of every call of `target` made inside later io.call()s;
+        used for compositional claims: 'f passes exactly these arguments to g', g itself being covered elsewhere"""
+        f = self.s.ex.fn_by_key(*target) if isinstance(target, tuple) else self.s.ex.fn_free(target)
+        return self.s.ex.spies.setdefault(f.name, [])
 
     def prove(self, name, goal, hyp=True):
         return self.s.prove(name, goal, hyp)
@@ -175,6 +190,10 @@ class NatIO:
 
     def bool(self, name):
         return symex.Bool(bool(self.model.get(name, False)))
+
+    def flt(self, name, lo, hi):
+        v = self.model.get(name)
+        return symex.Flt(int(v if v is not None else lo))
 
     def cenum(self, name, enum_name, discrs):
         v = self.model.get(name)
@@ -215,6 +234,9 @@ class NatIO:
         return None
 
     def obligations(self, prefix):
+        return []
+
+    def spy(self, target):
         return []
 
 
@@ -262,7 +284,11 @@ def replay_native(spec_fn, params, model, qname, qkind, profile):
             return "not_reproduced", "model violates an assumption natively"
         if qname in io.goals:
             return ("reproduced", "goal false natively") if io.goals[qname] is False else ("not_reproduced", "goal true natively")
-        return "not_reproduced", "goal %s not evaluated natively" % qname
+        bad = [g for g, v in io.goals.items() if v is False]
+        if bad:
+            # goals about internal call arguments have no native counterpart; the end-to-end goals stand in
+            return "reproduced", "native goal(s) false: %s" % ", ".join(bad)
+        return "not_reproduced", "goal %s not evaluated natively; all native goals true" % qname
     except Exception as e:
         return "error", "%s" % e
 
@@ -284,6 +310,9 @@ class ValIO:
 
     def bool(self, name):
         return symex.Bool(bool(self.vector[name]))
+
+    def flt(self, name, lo, hi):
+        return symex.Flt(int(self.vector[name]))
 
     def cenum(self, name, enum_name, discrs):
         v = int(self.vector[name])
@@ -338,6 +367,9 @@ class ValIO:
         return None
 
     def obligations(self, prefix):
+        return []
+
+    def spy(self, target):
         return []
 
 
